@@ -1,6 +1,6 @@
 (* C47: proofs about the tunnel transition system of model/Tunnel.v. *)
 From Coq Require Import List ZArith Bool Lia.
-From Bfe Require Import lib.Val model.Tunnel.
+From Bfe Require Import lib.Val lib.ValProofs model.Tunnel run.RunC47.
 Import ListNotations.
 Open Scope Z_scope.
 
@@ -20,6 +20,11 @@ Proof. destruct d, e; simpl; congruence. Qed.
 Lemma is_nil_true {A} (l : list A) : (match l with [] => true | _ => false end) = true -> l = [].
 Proof. destruct l; auto; discriminate. Qed.
 
+Lemma firstn_skipn_app {A} n (l r : list A) : firstn n l ++ skipn n l ++ r = l ++ r.
+Proof. rewrite app_assoc, firstn_skipn. reflexivity. Qed.
+
+Ltac fin := repeat rewrite <- app_assoc; repeat rewrite firstn_skipn_app; repeat rewrite firstn_skipn; reflexivity.
+
 Ltac unf := unfold total, in_network, dir_ok in *; simpl in *.
 
 (* one step preserves the invariant and the byte stream of BOTH directions *)
@@ -32,16 +37,16 @@ Proof.
     destruct d; simpl; [destruct (src_closed (cb s))|destruct (src_closed (bc s))]; simpl; unfold inv; simpl;
       try (split; [split; assumption|split; reflexivity]).
     + split; [split; [exact Hc|exact Hb]|]. split; [|reflexivity]. unf.
-      rewrite <- !app_assoc. rewrite firstn_skipn. reflexivity.
+      fin.
     + split; [split; [exact Hc|exact Hb]|]. split; [reflexivity|]. unf.
-      rewrite <- !app_assoc. rewrite firstn_skipn. reflexivity.
+      fin.
   - (* LFlushC *)
     destruct (flushed (cb s)) eqn:F; simpl; [unfold inv; auto|].
     destruct (pclosed s); simpl; [unfold inv; auto|].
     unfold inv; simpl. destruct Hc as [Hc1 Hc2]. specialize (Hc2 F).
     split; [split; [|exact Hb]|split; [|reflexivity]].
     + unf. split; [reflexivity|discriminate].
-    + unf. rewrite Hc2. simpl. rewrite <- !app_assoc. reflexivity.
+    + unf. rewrite Hc2. simpl. fin.
   - (* LFlushB *)
     destruct (flushed (bc s)) eqn:F; simpl; [unfold inv; auto|].
     destruct (negb (flushed (cb s))); simpl; [unfold inv; auto|].
@@ -49,7 +54,7 @@ Proof.
     unfold inv; simpl. destruct Hb as [Hb1 Hb2]. specialize (Hb2 F).
     split; [split; [exact Hc|]|split; [reflexivity|]].
     + unf. split; [reflexivity|discriminate].
-    + unf. rewrite Hb2. simpl. rewrite <- !app_assoc. reflexivity.
+    + unf. rewrite Hb2. simpl. fin.
   - (* LRead *)
     unfold copying.
     destruct (flushed (cb s)) eqn:Fc; simpl; [|unfold inv; auto].
@@ -61,34 +66,34 @@ Proof.
       destruct Hc as [Hc1 Hc2]. specialize (Hc1 Fc).
       unfold inv; simpl. split; [split; [|exact Hb]|split; [|reflexivity]].
       * unf. split; [intros _; exact Hc1|rewrite Fc; discriminate].
-      * unf. rewrite Hh, Hc1. simpl. Show. rewrite <- !app_assoc. rewrite firstn_skipn. reflexivity.
+      * unf. rewrite Hh, Hc1. simpl. fin.
     + destruct (negb (copier (bc s))); simpl; [unfold inv; auto|].
       destruct (pclosed s); simpl; [unfold inv; auto|].
       destruct (hold (bc s)) eqn:Hh; simpl; [|unfold inv; auto].
       destruct Hb as [Hb1 Hb2]. specialize (Hb1 Fb).
       unfold inv; simpl. split; [split; [exact Hc|]|split; [reflexivity|]].
       * unf. split; [intros _; exact Hb1|rewrite Fb; discriminate].
-      * unf. rewrite Hh, Hb1. simpl. rewrite <- !app_assoc. rewrite firstn_skipn. reflexivity.
+      * unf. rewrite Hh, Hb1. simpl. fin.
   - (* LWrite *)
     destruct d; simpl.
     + destruct (negb (copier (cb s))); simpl; [unfold inv; auto|].
       destruct (pclosed s); simpl; [unfold inv; auto|].
       unfold inv; simpl. split; [split; [|exact Hb]|split; [|reflexivity]].
       * unf. destruct Hc as [Hc1 Hc2]. split; auto.
-      * unf. rewrite <- !app_assoc. reflexivity.
+      * unf. fin.
     + destruct (negb (copier (bc s))); simpl; [unfold inv; auto|].
       destruct (pclosed s); simpl; [unfold inv; auto|].
       unfold inv; simpl. split; [split; [exact Hc|]|split; [reflexivity|]].
       * unf. destruct Hb as [Hb1 Hb2]. split; auto.
-      * unf. rewrite <- !app_assoc. reflexivity.
+      * unf. fin.
   - (* LRecv *)
     destruct d; simpl.
     + destruct (dst_eof (cb s)); simpl; [unfold inv; auto|].
       unfold inv; simpl. split; [split; [exact Hc|exact Hb]|split; [|reflexivity]].
-      unf. rewrite <- !app_assoc. rewrite (app_assoc (firstn n (wire_out (cb s)))). rewrite firstn_skipn. reflexivity.
+      unf. fin.
     + destruct (dst_eof (bc s)); simpl; [unfold inv; auto|].
       unfold inv; simpl. split; [split; [exact Hc|exact Hb]|split; [reflexivity|]].
-      unf. rewrite <- !app_assoc. rewrite (app_assoc (firstn n (wire_out (bc s)))). rewrite firstn_skipn. reflexivity.
+      unf. fin.
   - (* LClose *)
     destruct d; unfold inv; simpl; auto.
   - (* LEof *)
@@ -138,4 +143,278 @@ Proof.
   intros ce cp be bp sched s.
   destruct (transparent_full ce cp be bp sched) as [H1 H2]. fold s in H1, H2.
   split; eexists; symmetry; eassumption.
+Qed.
+
+(* ---------------------------------------------------------------- control invariant *)
+Definition ctl_inv (s : state) : Prop :=
+  (copier (cb s) = false -> armed s = true /\ src_closed (cb s) = true) /\
+  (copier (bc s) = false -> armed s = true /\ src_closed (bc s) = true) /\
+  (armed s = true -> copier (cb s) = false \/ copier (bc s) = false) /\
+  (pclosed s = true -> armed s = true) /\
+  (dst_eof (cb s) = true -> pclosed s = true /\ wire_out (cb s) = []) /\
+  (dst_eof (bc s) = true -> pclosed s = true /\ wire_out (bc s) = []).
+
+Lemma ctl_init ce cp be bp : ctl_inv (init ce cp be bp).
+Proof. unfold ctl_inv, init, init_dir; simpl. repeat split; intros; try discriminate. Qed.
+
+Ltac brk :=
+  repeat match goal with
+         | |- context [if ?c then _ else _] => let E := fresh "E" in destruct c eqn:E; simpl in *
+         end.
+
+Lemma ctl_step s l : ctl_inv s -> ctl_inv (step s l).
+Proof.
+  intros (H1 & H2 & H3 & H4 & H5 & H6).
+  destruct l as [d n| | |d n|d|d n|d|d| |d]; try destruct d; unfold step, get, put, copying; simpl;
+    brk; unfold ctl_inv; simpl; repeat split; intros;
+    repeat match goal with
+           | H : _ && _ = true |- _ => apply andb_true_iff in H; destruct H
+           | H : _ || _ = false |- _ => apply orb_false_iff in H; destruct H
+           | H : negb _ = true |- _ => apply negb_true_iff in H
+           | H : negb _ = false |- _ => apply negb_false_iff in H
+           end;
+    try solve [apply is_nil_true; assumption];
+    try solve [intuition congruence];
+    try solve [destruct (H5 ltac:(assumption)); intuition congruence];
+    try solve [destruct (H6 ltac:(assumption)); intuition congruence].
+Qed.
+
+Lemma ctl_exec sched : forall s, ctl_inv s -> ctl_inv (exec s sched).
+Proof.
+  induction sched as [|l r IH]; intros s H; [exact H|].
+  unfold exec in *. simpl. apply IH. apply ctl_step. exact H.
+Qed.
+
+(* ---------------------------------------------------------------- quiescence *)
+(* no step other than an endpoint's own decision to close changes the state *)
+Definition quiescent (s : state) : Prop := forall l, (forall d, l <> LClose d) -> step s l = s.
+
+Lemma skipn1_fix {A} (l : list A) : skipn 1 l = l -> l = [].
+Proof.
+  destruct l as [|a l]; auto. simpl. intros H. apply (f_equal (@length A)) in H. simpl in H. lia.
+Qed.
+Lemma firstn1_nil {A} (l : list A) : firstn 1 l = [] -> l = [].
+Proof. destruct l; auto; discriminate. Qed.
+
+Definition dirs_of (s : state) (d : which) : dir := get s d.
+
+Lemma q_send s d : step s (LSend d 1) = s -> src_closed (get s d) = false -> tosend (get s d) = [].
+Proof.
+  intros H Hc. apply (f_equal (fun s => tosend (get s d))) in H. unfold step in H. rewrite Hc in H.
+  rewrite get_put_same in H. simpl in H. apply skipn1_fix. exact H.
+Qed.
+
+Lemma q_flushC s : step s LFlushC = s -> pclosed s = false -> flushed (cb s) = true.
+Proof.
+  intros H Hp. destruct (flushed (cb s)) eqn:F; auto.
+  apply (f_equal (fun s => flushed (cb s))) in H. unfold step in H. rewrite F, Hp in H. simpl in H. congruence.
+Qed.
+
+Lemma q_flushB s : step s LFlushB = s -> pclosed s = false -> flushed (cb s) = true -> flushed (bc s) = true.
+Proof.
+  intros H Hp Fc. destruct (flushed (bc s)) eqn:F; auto.
+  apply (f_equal (fun s => flushed (bc s))) in H. unfold step in H. rewrite F, Hp, Fc in H. simpl in H. congruence.
+Qed.
+
+Lemma q_write s d : step s (LWrite d) = s -> copier (get s d) = true -> pclosed s = false -> hold (get s d) = [].
+Proof.
+  intros H Hc Hp. apply (f_equal (fun s => hold (get s d))) in H. unfold step in H. rewrite Hc, Hp in H. simpl in H.
+  rewrite get_put_same in H. simpl in H. congruence.
+Qed.
+
+Lemma q_read s d : step s (LRead d 1) = s -> copying s = true -> copier (get s d) = true -> pclosed s = false ->
+  hold (get s d) = [] -> wire_in (get s d) = [].
+Proof.
+  intros H Hcp Hc Hp Hh. apply firstn1_nil.
+  destruct d; unfold get in *; cbn [step get] in H; rewrite Hcp, Hc, Hp, Hh in H; cbn [negb orb] in H.
+  - apply (f_equal (fun s => hold (cb s))) in H. cbn in H. rewrite Hh in H. exact H.
+  - apply (f_equal (fun s => hold (bc s))) in H. cbn in H. rewrite Hh in H. exact H.
+Qed.
+
+Lemma q_recv s d : step s (LRecv d 1) = s -> dst_eof (get s d) = false -> wire_out (get s d) = [].
+Proof.
+  intros H He. apply (f_equal (fun s => wire_out (get s d))) in H. unfold step in H. rewrite He in H.
+  rewrite get_put_same in H. simpl in H. apply skipn1_fix. exact H.
+Qed.
+
+Lemma q_eof s d : step s (LEof d) = s -> copying s = true -> copier (get s d) = true -> src_closed (get s d) = true ->
+  pclosed s = false -> wire_in (get s d) = [] -> hold (get s d) = [] -> False.
+Proof.
+  intros H Hcp Hc Hs Hp Hw Hh. apply (f_equal (fun s => copier (get s d))) in H. unfold step in H.
+  rewrite Hcp, Hc, Hs, Hp, Hw, Hh in H. simpl in H.
+  destruct d; simpl in H; congruence.
+Qed.
+
+Lemma q_shutdown s : step s LShutdown = s -> armed s = true -> pclosed s = true.
+Proof.
+  intros H Ha. destruct (pclosed s) eqn:Hp; auto.
+  apply (f_equal pclosed) in H. unfold step in H. rewrite Ha, Hp in H. simpl in H. congruence.
+Qed.
+
+Lemma q_recveof s d : step s (LRecvEof d) = s -> pclosed s = true -> wire_out (get s d) = [] -> dst_eof (get s d) = true.
+Proof.
+  intros H Hp Hw. apply (f_equal (fun s => dst_eof (get s d))) in H. unfold step in H. rewrite Hp, Hw in H. simpl in H.
+  rewrite get_put_same in H. simpl in H. congruence.
+Qed.
+
+Ltac nocl := intros ?; discriminate.
+
+(* a quiescent state in which the proxy has not closed holds no byte inside the proxy or on a wire, in direction d,
+   provided that direction's copy loop is still running *)
+Lemma quiescent_drained s d :
+  inv s -> ctl_inv s -> quiescent s -> pclosed s = false -> copier (get s d) = true ->
+  buf (get s d) = [] /\ hold (get s d) = [] /\ wire_in (get s d) = [] /\ wire_out (get s d) = [] /\ copying s = true.
+Proof.
+  intros [Ic Ib] (H1 & H2 & H3 & H4 & H5 & H6) Q Hp Hc.
+  assert (Fc : flushed (cb s) = true) by (apply q_flushC; auto; apply Q; nocl).
+  assert (Fb : flushed (bc s) = true) by (apply q_flushB; auto; apply Q; nocl).
+  assert (Hcp : copying s = true) by (unfold copying; rewrite Fc, Fb; reflexivity).
+  assert (Hh : hold (get s d) = []) by (apply q_write; auto; apply Q; nocl).
+  assert (Hw : wire_in (get s d) = []) by (apply q_read; auto; apply Q; nocl).
+  assert (He : dst_eof (get s d) = false).
+  { destruct (dst_eof (get s d)) eqn:E; auto. destruct d; simpl in E; [destruct (H5 E)|destruct (H6 E)]; congruence. }
+  assert (Ho : wire_out (get s d) = []) by (apply q_recv; auto; apply Q; nocl).
+  assert (Hb : buf (get s d) = []).
+  { destruct d; simpl; [destruct Ic as [K _]|destruct Ib as [K _]]; auto. }
+  auto.
+Qed.
+
+(* Equality at quiescence without close: if neither endpoint has closed and nothing can move any more, each end has
+   received exactly everything: early bytes first, then the payload. *)
+Theorem complete_at_quiescence :
+  forall ce cp be bp sched,
+    let s := exec (init ce cp be bp) sched in
+    quiescent s -> src_closed (cb s) = false -> src_closed (bc s) = false ->
+    recv (cb s) = ce ++ cp /\ recv (bc s) = be ++ bp.
+Proof.
+  intros ce cp be bp sched s Q Sc Sb.
+  pose proof (ctl_exec sched _ (ctl_init ce cp be bp)) as C. fold s in C.
+  destruct (exec_preserves sched _ (init_inv ce cp be bp)) as [I _]. fold s in I.
+  destruct (transparent_full ce cp be bp sched) as [T1 T2]. fold s in T1, T2.
+  pose proof C as (H1 & H2 & H3 & H4 & H5 & H6).
+  assert (Kc : copier (cb s) = true). { destruct (copier (cb s)) eqn:E; auto. destruct (H1 eq_refl). congruence. }
+  assert (Kb : copier (bc s) = true). { destruct (copier (bc s)) eqn:E; auto. destruct (H2 eq_refl). congruence. }
+  assert (Hp : pclosed s = false).
+  { destruct (pclosed s) eqn:E; auto. destruct (H3 (H4 eq_refl)); congruence. }
+  destruct (quiescent_drained s CB I C Q Hp Kc) as (A1 & A2 & A3 & A4 & _).
+  destruct (quiescent_drained s BC I C Q Hp Kb) as (B1 & B2 & B3 & B4 & _).
+  simpl in *.
+  assert (Tc : tosend (cb s) = []) by (apply (q_send s CB); auto; apply Q; nocl).
+  assert (Tb : tosend (bc s) = []) by (apply (q_send s BC); auto; apply Q; nocl).
+  rewrite A1, A2, A3, A4, Tc in T1. rewrite B1, B2, B3, B4, Tb in T2. simpl in T1, T2.
+  rewrite app_nil_r in T1, T2. auto.
+Qed.
+
+(* Close propagation: once either endpoint has closed and nothing can move any more, the proxy has closed BOTH
+   connections and both endpoints have read EOF. *)
+Theorem close_propagates :
+  forall ce cp be bp sched,
+    let s := exec (init ce cp be bp) sched in
+    quiescent s -> src_closed (cb s) = true \/ src_closed (bc s) = true ->
+    pclosed s = true /\ dst_eof (cb s) = true /\ dst_eof (bc s) = true.
+Proof.
+  intros ce cp be bp sched s Q Hcl.
+  pose proof (ctl_exec sched _ (ctl_init ce cp be bp)) as C. fold s in C.
+  destruct (exec_preserves sched _ (init_inv ce cp be bp)) as [I _]. fold s in I.
+  pose proof C as (H1 & H2 & H3 & H4 & H5 & H6).
+  assert (Hp : pclosed s = true).
+  { destruct (pclosed s) eqn:Hp; auto. exfalso.
+    assert (exists d, src_closed (get s d) = true) as [d Hd] by (destruct Hcl; [exists CB|exists BC]; auto).
+    destruct (copier (get s d)) eqn:Kc.
+    - destruct (quiescent_drained s d I C Q Hp Kc) as (A1 & A2 & A3 & A4 & Hcp).
+      eapply (q_eof s d); eauto. apply Q; nocl.
+    - assert (armed s = true) as Ha by (destruct d; simpl in Kc; [destruct (H1 Kc)|destruct (H2 Kc)]; auto).
+      assert (pclosed s = true) by (apply q_shutdown; auto; apply Q; nocl). congruence. }
+  split; auto.
+  assert (forall d, dst_eof (get s d) = true) as K.
+  { intros d. destruct (dst_eof (get s d)) eqn:E; auto.
+    assert (Ho : wire_out (get s d) = []) by (apply q_recv; auto; apply Q; nocl).
+    rewrite <- E. apply q_recveof; auto. apply Q; nocl. }
+  split; [apply (K CB)|apply (K BC)].
+Qed.
+
+(* quiescent states exist and are reached by ordinary schedules: the example of the model file ends in one *)
+Lemma quiescent_example :
+  let s := exec (init [1;2] [3;4;5] [9] [8;7])
+                ([LFlushC; LFlushB] ++ drain 10 ++ chunk_sched [(CB, 2%nat); (BC, 2%nat); (CB, 1%nat)]
+                 ++ [LClose CB; LEof CB; LShutdown; LRecvEof CB; LRecvEof BC]) in
+  quiescent s /\ src_closed (cb s) = true.
+Proof.
+  cbv zeta.
+  match goal with |- quiescent ?s /\ _ => let s' := eval vm_compute in s in change s with s' end.
+  split; [|reflexivity].
+  intros l Hl. destruct l as [d n| | |d n|d|d n|d|d| |d]; try destruct d; try (exfalso; eapply Hl; reflexivity);
+    try (destruct n); reflexivity.
+Qed.
+
+(* ---------------------------------------------------------------- the model satisfies prop_C47 *)
+Definition St (rc rb tc tb : list Z) : state :=
+  mkState (mkDir tc [] [] true [] [] rc false true false) (mkDir tb [] [] true [] [] rb false true false) false false.
+
+Lemma firstn_len_app {A} (b r : list A) : firstn (length b) (b ++ r) = b.
+Proof. rewrite firstn_app, Nat.sub_diag, firstn_all. simpl. apply app_nil_r. Qed.
+Lemma skipn_len_app {A} (b r : list A) : skipn (length b) (b ++ r) = r.
+Proof. rewrite skipn_app, Nat.sub_diag, skipn_all. reflexivity. Qed.
+
+Lemma chunk_CB rc rb b tc tb :
+  exec (St rc rb (b ++ tc) tb) [LSend CB (length b); LRead CB (length b); LWrite CB; LRecv CB (length b)] = St (rc ++ b) rb tc tb.
+Proof.
+  unfold exec, St. cbn [fold_left step get put cb bc src_closed copying flushed copier pclosed hold negb orb andb
+                        tosend wire_in buf wire_out recv dst_eof armed].
+  rewrite firstn_len_app, skipn_len_app. cbn [app].
+  repeat (rewrite firstn_all || rewrite skipn_all || (progress cbn [app])). reflexivity.
+Qed.
+
+Lemma chunk_BC rc rb b tc tb :
+  exec (St rc rb tc (b ++ tb)) [LSend BC (length b); LRead BC (length b); LWrite BC; LRecv BC (length b)] = St rc (rb ++ b) tc tb.
+Proof.
+  unfold exec, St. cbn [fold_left step get put cb bc src_closed copying flushed copier pclosed hold negb orb andb
+                        tosend wire_in buf wire_out recv dst_eof armed].
+  rewrite firstn_len_app, skipn_len_app. cbn [app].
+  repeat (rewrite firstn_all || rewrite skipn_all || (progress cbn [app])). reflexivity.
+Qed.
+
+Lemma exec_app' s a b : exec s (a ++ b) = exec (exec s a) b.
+Proof. unfold exec. apply fold_left_app. Qed.
+
+Lemma chunks_run : forall es rc rb,
+  exec (St rc rb (payload CB es) (payload BC es)) (chunk_sched (map (fun e => (fst e, length (snd e))) es))
+  = St (rc ++ payload CB es) (rb ++ payload BC es) [] [].
+Proof.
+  induction es as [|[d b] es IH]; intros rc rb.
+  - simpl. rewrite !app_nil_r. reflexivity.
+  - cbn [map fst snd chunk_sched]. rewrite exec_app'.
+    destruct d; unfold payload; cbn [flat_map fst snd]; fold (payload CB es); fold (payload BC es).
+    + cbn [app]. rewrite chunk_CB. rewrite IH. rewrite <- app_assoc. reflexivity.
+    + cbn [app]. rewrite chunk_BC. rewrite IH. rewrite <- app_assoc. reflexivity.
+Qed.
+
+Lemma run_tunnel_spec t :
+  run_tunnel t = VL [VB (t_cearly t ++ payload CB (t_events t)); VB (t_bearly t ++ payload BC (t_events t)); VZ 1; VZ 1].
+Proof.
+  unfold run_tunnel, tunnel_sched.
+  rewrite exec_app'.
+  assert (E0 : exec (init (t_cearly t) (payload CB (t_events t)) (t_bearly t) (payload BC (t_events t)))
+                    [LFlushC; LFlushB; LRecv CB (length (t_cearly t)); LRecv BC (length (t_bearly t))]
+               = St (t_cearly t) (t_bearly t) (payload CB (t_events t)) (payload BC (t_events t))).
+  { unfold exec, init, init_dir, St.
+    cbn [fold_left step get put cb bc src_closed copying flushed copier pclosed hold negb orb andb
+         tosend wire_in buf wire_out recv dst_eof armed app].
+    repeat (rewrite firstn_all || rewrite skipn_all || (progress cbn [app])). reflexivity. }
+  rewrite E0. rewrite exec_app'. rewrite chunks_run.
+  destruct (t_closer t); reflexivity.
+Qed.
+
+Lemma prop_all_run ts : prop_all ts (map run_tunnel ts) = true.
+Proof.
+  induction ts as [|t ts IH]; [reflexivity|].
+  simpl. rewrite IH, andb_true_r. unfold prop_tunnel. rewrite run_tunnel_spec. apply val_eqb_refl.
+Qed.
+
+(* for every input: the model's output satisfies the property predicate that the harness evaluates on the implementation *)
+Theorem prop_C47_of_model : forall i, prop_C47 i (run_C47 i) = true.
+Proof.
+  intros i. unfold prop_C47, run_C47. destruct (decode_C47 i) as [ts|].
+  - apply prop_all_run.
+  - apply val_eqb_refl.
 Qed.
